@@ -175,7 +175,10 @@ def run_unit(unit, ctx):
                     env = orc.env(pt)
                     st = m.State.from_data(arr)
                     R.stats.inc("state_from_data_non_float64_cases")
-                if defn["control"] or pi % 2 == 0:
+                if pi % 4 == 1:
+                    res = m.model(control=ct, state=st, dt=float(pt[defn["dt"]]))
+                    R.stats.inc("keyword_argument_calls")
+                elif defn["control"] or pi % 2 == 0:
                     res = m.model(float(pt[defn["dt"]]), st, ct)
                 else:
                     res = m.model(float(pt[defn["dt"]]), st)
